@@ -143,25 +143,26 @@ void WrappableGrid<T, DIM>::translate(
     // translation along X
     if (indexOffsetAlongXAxis) {
       for (yIndex = 0; yIndex < numberOfCellsAlongYAxis; yIndex++) {
-        xIndex = indexOffsetsAlongAxes_[0];
+        xIndex = 0;
         for (int xOffset = 0; xOffset < indexOffsetAlongXAxis; xOffset++) {
           this->buffer_[computeCellLinearIndex_(cellIndexes)] = emptyValue;
           xIndex = (xIndex + 1) % numberOfCellsAlongXAxis;
         }
 
-        xIndex = indexOffsetsAlongAxes_[0];
+        xIndex = 0;
         for (int xOffset = 0; xOffset > indexOffsetAlongXAxis; xOffset--) {
           xIndex = (xIndex + numberOfCellsAlongXAxisMinusOne) % numberOfCellsAlongXAxis;
           this->buffer_[computeCellLinearIndex_(cellIndexes)] = emptyValue;
         }
       }
-      indexOffsetsAlongAxes_[0] = (numberOfCellsAlongXAxis + indexOffsetAlongXAxis) %
+      indexOffsetsAlongAxes_[0] = (indexOffsetsAlongAxes_[0] + numberOfCellsAlongXAxis +
+        indexOffsetAlongXAxis % static_cast<int>(numberOfCellsAlongXAxis)) %
         numberOfCellsAlongXAxis;
     }
 
     // translation along Y
     if (indexOffsetAlongYAxis) {
-      yIndex = indexOffsetsAlongAxes_[1];
+      yIndex = 0;
       for (int yOffset = 0; yOffset < indexOffsetAlongYAxis; yOffset++) {
         for (xIndex = 0; xIndex < numberOfCellsAlongXAxis; xIndex++) {
           this->buffer_[computeCellLinearIndex_(cellIndexes)] = emptyValue;
@@ -176,7 +177,8 @@ void WrappableGrid<T, DIM>::translate(
         }
       }
 
-      indexOffsetsAlongAxes_[1] = (numberOfCellsAlongYAxis + indexOffsetAlongYAxis) %
+      indexOffsetsAlongAxes_[1] = (indexOffsetsAlongAxes_[1] + numberOfCellsAlongYAxis +
+        indexOffsetAlongYAxis % static_cast<int>(numberOfCellsAlongYAxis)) %
         numberOfCellsAlongYAxis;
     }
   } else {
@@ -201,7 +203,7 @@ void WrappableGrid<T, DIM>::translate(
     if (indexOffsetAlongXAxis) {
       for (zIndex = 0; zIndex < numberOfCellsAlongZAxis; zIndex++) {
         for (yIndex = 0; yIndex < numberOfCellsAlongYAxis; yIndex++) {
-          xIndex = indexOffsetsAlongAxes_[0];
+          xIndex = 0;
           for (int xOffset = 0; xOffset < indexOffsetAlongXAxis; xOffset++) {
             this->buffer_[computeCellLinearIndex_(cellIndexes)] = emptyValue;
             xIndex = (xIndex + 1) % numberOfCellsAlongXAxis;
@@ -213,14 +215,15 @@ void WrappableGrid<T, DIM>::translate(
           }
         }
       }
-      indexOffsetsAlongAxes_[0] = (numberOfCellsAlongXAxis + indexOffsetAlongXAxis) %
+      indexOffsetsAlongAxes_[0] = (indexOffsetsAlongAxes_[0] + numberOfCellsAlongXAxis +
+        indexOffsetAlongXAxis % static_cast<int>(numberOfCellsAlongXAxis)) %
         numberOfCellsAlongXAxis;
     }
 
     // translation along Y
     if (indexOffsetAlongYAxis) {
       for (zIndex = 0; zIndex < numberOfCellsAlongZAxis; zIndex++) {
-        yIndex = indexOffsetsAlongAxes_[1];
+        yIndex = 0;
         for (int yOffset = 0; yOffset < indexOffsetAlongYAxis; yOffset++) {
           for (xIndex = 0; xIndex < numberOfCellsAlongXAxis; xIndex++) {
             this->buffer_[computeCellLinearIndex_(cellIndexes)] = emptyValue;
@@ -236,13 +239,14 @@ void WrappableGrid<T, DIM>::translate(
           }
         }
       }
-      indexOffsetsAlongAxes_[1] = (numberOfCellsAlongYAxis + indexOffsetAlongYAxis) %
+      indexOffsetsAlongAxes_[1] = (indexOffsetsAlongAxes_[1] + numberOfCellsAlongYAxis +
+        indexOffsetAlongYAxis % static_cast<int>(numberOfCellsAlongYAxis)) %
         numberOfCellsAlongYAxis;
     }
 
     // translation along Z
     if (indexOffsetAlongZAxis) {
-      zIndex = indexOffsetsAlongAxes_[2];
+      zIndex = 0;
 
       for (int zOffset = 0; zOffset < indexOffsetAlongZAxis; zOffset++) {
         for (yIndex = 0; yIndex < numberOfCellsAlongYAxis; yIndex++) {
@@ -253,7 +257,7 @@ void WrappableGrid<T, DIM>::translate(
         zIndex = (zIndex + 1) % numberOfCellsAlongZAxis;
       }
 
-      for (int zOffset = 0; zOffset < indexOffsetAlongZAxis; zOffset++) {
+      for (int zOffset = 0; zOffset > indexOffsetAlongZAxis; zOffset--) {
         zIndex = (zIndex + numberOfCellsAlongZAxisMinusOne) % numberOfCellsAlongZAxis;
 
         for (yIndex = 0; yIndex < numberOfCellsAlongYAxis; yIndex++) {
@@ -262,7 +266,8 @@ void WrappableGrid<T, DIM>::translate(
           }
         }
       }
-      indexOffsetsAlongAxes_[2] = (numberOfCellsAlongZAxis + indexOffsetAlongZAxis) %
+      indexOffsetsAlongAxes_[2] = (indexOffsetsAlongAxes_[2] + numberOfCellsAlongZAxis +
+        indexOffsetAlongZAxis % static_cast<int>(numberOfCellsAlongZAxis)) %
         numberOfCellsAlongZAxis;
     }
   }
